@@ -426,6 +426,12 @@ func (st *State) checkEnsures(fr *Frame, results []SVal) {
 	if u.c.HasMods {
 		var goals []*Term
 		var parts []*Obligation
+		for _, p := range st.uncoveredHavocs(u.c.Modifies) {
+			if strings.HasPrefix(p, "F:") || strings.HasPrefix(p, "B:") || strings.HasPrefix(p, "E:") {
+				continue // heap cells: checked precisely through the arrays this path read
+			}
+			st.e.addObligation(st, u, "frame", "havoc-"+p, site, TFalse, u.c.Props, "a callee or loop may modify "+p+", which the modifies clause does not list", false)
+		}
 		for _, k := range st.touchedKeys() {
 			if matchKey(u.c.Modifies, k) {
 				continue
@@ -610,12 +616,40 @@ func (e *Engine) loopsOf(fn *ssa.Function) []*loopInfo {
 		return l
 	}
 	l := findLoops(fn)
+	// an "inline" contract block of the function carries invariants for its loops
+	if ct, ok := e.specs.Contracts[fnKey(fn)]; ok && ct.Inline {
+		for _, li := range l {
+			for _, ls := range ct.Loops {
+				if ls.Ordinal == li.ordinal {
+					li.spec = ls
+				}
+			}
+		}
+	}
 	loopCache[fn] = l
 	return l
 }
 
 func (st *State) loopEnv(fr *Frame, li *loopInfo) *Env {
 	env := st.unitEnv(fr, nil)
+	if !fr.isUnit {
+		// an inlined function (e.g. a hook closure): its own parameters and captured variables are in scope
+		env = &Env{vars: map[string]envVar{}, cells: map[string]*AddrV{}, old: st.pre, pkg: st.u.c.Pkg}
+		for _, p := range fr.fn.Params {
+			if v, ok := fr.vals[p]; ok {
+				env.vars[p.Name()] = envVar{v, p.Type()}
+			}
+		}
+		for i, fv := range fr.fn.FreeVars {
+			if i < len(fr.bindings) {
+				if pt, ok := fv.Type().Underlying().(*types.Pointer); ok {
+					env.cells[fv.Name()] = st.ptrAddr(fr.bindings[i], pt.Elem())
+				} else {
+					env.vars[fv.Name()] = envVar{fr.bindings[i], fv.Type()}
+				}
+			}
+		}
+	}
 	// phis of every open loop of this function are visible as name<ordinal> (idx3, dest2, ...)
 	for _, ol := range st.loopsFor(fr) {
 		if !st.opened[ol.head] && ol != li {
@@ -905,6 +939,9 @@ func (e *Engine) modSetBlocks(st *State, fn *ssa.Function, blocks map[*ssa.Basic
 		for _, in := range b.Instrs {
 			switch x := in.(type) {
 			case *ssa.Store:
+				if blocks != nil && allocatedIn(x.Addr, blocks) {
+					continue // a cell of an object allocated inside the loop: not visible after the iteration
+				}
 				if k, ok := storeTarget(x.Addr); ok {
 					add(k)
 				} else {
@@ -1001,6 +1038,23 @@ func (e *Engine) modSetBlocks(st *State, fn *ssa.Function, blocks map[*ssa.Basic
 		}
 	}
 	return pats, false
+}
+
+// allocatedIn: the address is a cell of an object allocated (by an Alloc instruction) in one of the blocks.
+func allocatedIn(addr ssa.Value, blocks map[*ssa.BasicBlock]bool) bool {
+	for i := 0; i < 8; i++ {
+		switch a := addr.(type) {
+		case *ssa.FieldAddr:
+			addr = a.X
+		case *ssa.IndexAddr:
+			addr = a.X
+		case *ssa.Alloc:
+			return blocks[a.Block()]
+		default:
+			return false
+		}
+	}
+	return false
 }
 
 // storeTarget maps a store address to a modifies pattern.
